@@ -71,15 +71,24 @@ let hex_of_bytes (b : n list) =
 (* outputs of earlier operations by script line:  @N ~K <K +HEX  (see cdrv.c) *)
 let saved : (int, n list) Hashtbl.t = Hashtbl.create 1024
 let rec take_n k l = if k <= 0 then [] else match l with [] -> [] | x :: r -> x :: take_n (k-1) r
-let parse_ref (s : string) : n list =
+let parse_barg (s : string) : n list =
   let len = String.length s in
-  let pos = ref 1 in
+  let pos = ref 0 in
   let read_hex () =
     let st = !pos in
     while !pos < len && hexval_opt s.[!pos] >= 0 do incr pos done;
     String.sub s st (!pos - st) in
-  let ln = int_of_string ("0x" ^ read_hex ()) in
-  let cur = ref (try Hashtbl.find saved ln with Not_found -> []) in
+  let cur = ref [] in
+  if len > 0 && s.[0] = '-' then incr pos
+  else if len > 0 && s.[0] = '@' then begin
+    incr pos;
+    let ln = int_of_string ("0x" ^ read_hex ()) in
+    cur := (try Hashtbl.find saved ln with Not_found -> [])
+  end else begin
+    let h = read_hex () in
+    cur := bytes_of_hex (if h = "" then "-" else h)
+  end;
+  let rec drop_n k l = if k <= 0 then l else match l with [] -> [] | _ :: r -> drop_n (k-1) r in
   while !pos < len do
     let op = s.[!pos] in
     incr pos;
@@ -92,12 +101,10 @@ let parse_ref (s : string) : n list =
      | '&' -> let ln2 = int_of_string ("0x" ^ h) in
               let j = if !pos < len && s.[!pos] = ':' then (incr pos; int_of_string ("0x" ^ read_hex ())) else 0 in
               let src = (try Hashtbl.find saved ln2 with Not_found -> []) in
-              let rec drop_n k l = if k <= 0 then l else match l with [] -> [] | _ :: r -> drop_n (k-1) r in
               cur := !cur @ drop_n j src
      | _ -> ())
   done;
   !cur
-let parse_barg s = if String.length s > 0 && s.[0] = '@' then parse_ref s else bytes_of_hex s
 
 let opcodes = Hashtbl.create 64
 let () = List.iter (fun (n, c) -> Hashtbl.replace opcodes n c) [
@@ -111,7 +118,7 @@ let () = List.iter (fun (n, c) -> Hashtbl.replace opcodes n c) [
   "protect", 56; "unprotect", 57; "protect_rtcp", 58; "unprotect_rtcp", 59;
   "setroc", 60; "getroc", 61; "trailer", 62; "poke_limit", 63; "poke_rtcp", 64; "poke_index", 65;
   "failnth", 66; "peek", 67; "stream_update", 68; "nstreams", 69;
-  "spec_rtp", 70; "spec_rtcp", 71; "spec_kdf", 72; "heap", 73; "secret", 74; "icm", 33 ]
+  "spec_rtp", 70; "spec_rtcp", 71; "spec_kdf", 72; "heap", 73; "secret", 74; "icm", 33; "mktag", 75 ]
 
 let () =
   let st = ref ms_init in
